@@ -820,6 +820,125 @@ impl<'a> Gen<'a> {
     pub fn name(&self, rng: &mut Rng) -> String {
         rng.pick(self.names).clone()
     }
+    /// top-level entry: mostly `term(depth)`, but 1 case in 50 uses an *extreme profile* — deep
+    /// (up to 18), wide (arity up to 12), long names (2..8 pool names concatenated, 10..60 chars),
+    /// big intervals — that small-scope generation would never reach
+    pub fn term_x(&self, rng: &mut Rng, depth: usize) -> TD {
+        if !rng.chance(1, 50) {
+            return self.term(rng, depth, false);
+        }
+        let mut t = match rng.below(4) {
+            3 => {
+                // many small composites side by side (40..120 statements / compounds at depth 2)
+                let k = *rng.pick(&[Kind::Conj, Kind::Product, Kind::SetExt, Kind::ConjSeq, Kind::IntExt, Kind::Disj]);
+                let n = rng.range(40, 100);
+                let g = Gen { max_arity: 2, ..self.clone() };
+                let kids: Vec<TD> = (0..n)
+                    .map(|i| {
+                        let inner = ALL_KINDS[7 + rng.below(23)];
+                        match inner.shape() {
+                            Shape::Unary => TD::comp(inner, vec![g.atom(rng, false)]),
+                            Shape::BinOrd | Shape::BinSym => TD::bin(inner, g.atom(rng, false), TD::word(&format!("n{}", i))),
+                            Shape::Image => TD::image(inner, rng.below(2), vec![TD::word(&format!("n{}", i))]),
+                            _ => TD::comp(inner, vec![TD::word(&format!("n{}", i))]),
+                        }
+                    })
+                    .collect();
+                TD::comp(k, kids)
+            }
+            0 => {
+                // deep and narrow
+                let g = Gen { max_arity: 2, ..self.clone() };
+                let d = if rng.chance(1, 4) { rng.range(30, 90) } else { rng.range(9, 18) };
+                g.spine(rng, d)
+            }
+            1 => {
+                // wide
+                let g = Gen { max_arity: 12, ..self.clone() };
+                let mut t = g.term(rng, 3, false);
+                let mut guard = 0;
+                while t.kids.len() < 7 && guard < 20 {
+                    t = g.term(rng, 3, false);
+                    guard += 1;
+                }
+                t
+            }
+            _ => self.term(rng, depth.max(3), false),
+        };
+        self.lengthen_names(&mut t, rng);
+        t
+    }
+
+    /// a deep chain: every level is a random non-atom constructor with one deep child
+    fn spine(&self, rng: &mut Rng, depth: usize) -> TD {
+        if depth <= 1 {
+            return self.atom(rng, false);
+        }
+        let k = ALL_KINDS[7 + rng.below(23)];
+        let deep = self.spine(rng, depth - 1);
+        match k.shape() {
+            Shape::Unary => TD::comp(k, vec![deep]),
+            Shape::BinOrd | Shape::BinSym => {
+                let other = self.atom(rng, false);
+                if rng.chance(1, 2) {
+                    TD::comp(k, vec![deep, other])
+                } else {
+                    TD::comp(k, vec![other, deep])
+                }
+            }
+            Shape::Image => {
+                let other = self.atom(rng, false);
+                let kids = if rng.chance(1, 2) { vec![deep, other] } else { vec![other, deep] };
+                let idx = rng.below(3);
+                TD::image(k, idx, kids)
+            }
+            _ => {
+                let mut kids = vec![deep];
+                if rng.chance(1, 2) {
+                    kids.push(self.atom(rng, true));
+                }
+                TD::comp(k, kids)
+            }
+        }
+    }
+
+    fn lengthen_names(&self, t: &mut TD, rng: &mut Rng) {
+        match t.k.shape() {
+            Shape::AtomNamed => {
+                if rng.chance(1, 2) {
+                    let n = rng.range(2, 8);
+                    let mut name = String::new();
+                    for _ in 0..n {
+                        name.push_str(&rng.pick(self.names)[..]);
+                        // random letters from wide Unicode ranges (never a keyword character of any format)
+                        if rng.chance(1, 2) {
+                            for _ in 0..rng.range(1, 4) {
+                                name.push(random_letter(rng));
+                            }
+                        }
+                    }
+                    t.name = name;
+                }
+            }
+            Shape::AtomInterval => {
+                if rng.chance(1, 2) {
+                    t.num = match rng.below(6) {
+                        0 => (1usize << 31) - 1,
+                        1 => 1usize << 32,
+                        2 => (1usize << 53) + 1,
+                        3 => usize::MAX - 1,
+                        4 => 10usize.pow(rng.range(1, 19) as u32),
+                        _ => rng.next_u64() as usize,
+                    };
+                }
+            }
+            _ => {}
+        }
+        for k in t.kids.iter_mut() {
+            self.lengthen_names(k, rng);
+        }
+    }
+
     pub fn atom(&self, rng: &mut Rng, allow_placeholder: bool) -> TD {
         let r = rng.below(20);
         match r {
@@ -900,19 +1019,45 @@ impl<'a> Gen<'a> {
         }
     }
     pub fn float(&self, rng: &mut Rng) -> f64 {
-        if rng.chance(1, 2) {
-            *rng.pick(&SPECIAL_FLOATS)
-        } else {
-            rng.unit_f64()
+        match rng.below(8) {
+            0..=2 => *rng.pick(&SPECIAL_FLOATS),
+            3 | 4 => rng.unit_f64(),
+            5 => {
+                // k / 10^d : short decimal texts of every length
+                let d = rng.range(1, 17) as i32;
+                let k = rng.next_u64() % 10u64.pow(d as u32);
+                (k as f64 / 10f64.powi(d)).min(1.0)
+            }
+            6 => {
+                // all scales towards 0 and towards 1
+                let e = rng.range(1, 300) as i32;
+                let x = rng.unit_f64() * 10f64.powi(-e.min(30)) * if e > 30 { 10f64.powi(-(e - 30)) } else { 1.0 };
+                if rng.chance(1, 2) { x } else { (1.0 - x.min(0.5)).min(1.0) }
+            }
+            _ => {
+                // neighbours of special values
+                let b = rng.pick(&SPECIAL_FLOATS).to_bits() as i64 + (rng.below(5) as i64 - 2);
+                let x = f64::from_bits(b.max(0) as u64);
+                if x.is_finite() && (0.0..=1.0).contains(&x) { x } else { 0.5 }
+            }
         }
     }
     pub fn stamp(&self, rng: &mut Rng) -> StampD {
-        match rng.below(8) {
+        match rng.below(9) {
             0 | 1 => StampD::Eternal,
             2 => StampD::Past,
             3 => StampD::Present,
             4 => StampD::Future,
             5 => StampD::Fixed(*rng.pick(&SPECIAL_TIMES)),
+            6 => {
+                let p = 10isize.pow(rng.range(0, 18) as u32);
+                StampD::Fixed(match rng.below(4) {
+                    0 => p,
+                    1 => -p,
+                    2 => isize::MAX - rng.below(3) as isize,
+                    _ => isize::MIN + rng.below(3) as isize,
+                })
+            }
             _ => StampD::Fixed(rng.next_u64() as isize),
         }
     }
@@ -923,7 +1068,7 @@ impl<'a> Gen<'a> {
         } else {
             vec![]
         };
-        SD { term: self.term(rng, depth, false), punct, stamp: self.stamp(rng), truth }
+        SD { term: self.term_x(rng, depth), punct, stamp: self.stamp(rng), truth }
     }
     pub fn task(&self, rng: &mut Rng, depth: usize) -> KD {
         let budget = (0..rng.below(4)).map(|_| self.float(rng)).collect();
@@ -931,9 +1076,40 @@ impl<'a> Gen<'a> {
     }
     pub fn narsese(&self, rng: &mut Rng, depth: usize) -> ND {
         match rng.below(3) {
-            0 => ND::Term(self.term(rng, depth, false)),
+            0 => ND::Term(self.term_x(rng, depth)),
             1 => ND::Sent(self.sentence(rng, depth)),
             _ => ND::Task(self.task(rng, depth)),
+        }
+    }
+}
+
+/// a random alphanumeric character from wide Unicode ranges that is not a character of any Han
+/// keyword (so the name stays in the safe pool of every format)
+pub fn random_letter(rng: &mut Rng) -> char {
+    const HAN_KEYWORD_CHARS: &str = "某任一其所问间隔操作外交内差积像与或非接连同时是似得为有具将现曾过去在来发生真值预算";
+    const RANGES: [(u32, u32); 14] = [
+        (0x4E00, 0x9FFF),   // CJK unified
+        (0x3400, 0x4DBF),   // CJK ext A
+        (0xAC00, 0xD7A3),   // Hangul syllables
+        (0x0400, 0x04FF),   // Cyrillic
+        (0x0370, 0x03FF),   // Greek
+        (0x3040, 0x30FF),   // kana
+        (0x1F300, 0x1FAFF), // emoji & pictographs (> U+1F2FF are identifier chars of the formats)
+        (0x20000, 0x2A6DF), // CJK ext B
+        (0x00C0, 0x024F),   // Latin supplements
+        (0xFF10, 0xFF19),   // fullwidth digits (Nd)
+        (0x0660, 0x0669),   // Arabic-Indic digits (Nd)
+        (0x2460, 0x2473),   // circled numbers (No)
+        (0x2160, 0x2188),   // Roman numerals (Nl)
+        (0x00B2, 0x00B3),   // superscripts (No)
+    ];
+    loop {
+        let (lo, hi) = RANGES[rng.below(RANGES.len())];
+        let cp = lo + (rng.next_u64() % (hi - lo + 1) as u64) as u32;
+        if let Some(c) = char::from_u32(cp) {
+            if (c.is_alphanumeric() || c > '\u{1f2ff}') && !HAN_KEYWORD_CHARS.contains(c) {
+                return c;
+            }
         }
     }
 }
